@@ -50,6 +50,12 @@ STRENGTHENED.update({
  'C18-r4': 'missed at first (both determinism runs started from the same buffer content and no capacity left a remainder below d). The two runs now start from different buffer contents; capacities 1027 and 16389 added.',
  'C19-r4': 'missed at first (kill points model crashes, not failing calls). Added a third phase: in every scenario every data-writing call fails once with ENOSPC while the process lives on (ptrace: call skipped, result rewritten); oracle: non-zero exit status and recoverable data.',
  'C20-r4': 'missed at first (frames never exceeded one block). Added unit `c20-bigframes`: 300 KB of content, three maxFrameSize values, checksum on / off, input offered whole or in pieces, output room 1000 bytes or ample; every frame and 8 ranges read back.',
+ 'C02-r5': 'missed at first. Added a fourth input texture to the streaming-compressor histories: period 4 with a zero byte, the last byte of every KiB replaced, so that a repcode match starts exactly on the first byte of a new segment of the input ring while the byte in front of the segment in memory differs from the real previous byte.',
+ 'C03-r5': 'missed at first (single-byte substitutions do not produce offsets beyond two laps of the output ring). Added the `laps` catalogue family (3..10 run-length blocks through a 1 KiB window, then a match) and C03-only invalid seeds of the same shape with offsets 1025..9000.',
+ 'C07-r5': 'missed at first (no subject had two full 128 KiB blocks). Added unit `c07-big`: 400 KB subjects x 5 levels x 3 entry points x heap / static after priors that leave large per-frame counters behind.',
+ 'C11-r5': 'missed at first (no driver kept the consumer slower than the workers). Added driver D17: 12 jobs offered with one byte of output room per call, then end.',
+ 'C15-r5': 'missed at first by C15 (the multithreaded unit of C07 catches it). That unit now also runs as `c15-mt-reuse`.',
+ 'C17-r5': 'missed at first: my own corruption table listed "offset 0 with a match length" as acceptable. In explicit-delimiter mode it is a malformed delimiter and must be refused (zstd does refuse it).',
 })
 
 def main():
